@@ -732,6 +732,16 @@ func (db *DB) rollbackJournalSegment(ctx context.Context, r *JournalReader, dbFi
 		if err := db.writeDatabasePage(dbFile, pgno, data, true); err != nil {
 			return fmt.Errorf("write to database (pgno=%d): %w", pgno, err)
 		}
+
+		// The journal mode is recorded on the first page: follow it if the
+		// transaction that is rolled back was changing it.
+		if pgno == 1 {
+			if data[18] == 2 && data[19] == 2 {
+				db.mode.Store(DBModeWAL)
+			} else {
+				db.mode.Store(DBModeRollback)
+			}
+		}
 	}
 }
 
